@@ -15,7 +15,7 @@ MATRIX_FNS = ["matrix", "lemma_cell_sem", "lemma_cmp_rekey", "lemma_cell_missing
 
 FRAME_FNS = ["lemma_frame", "lemma_frame_group", "lemma_frame_match", "lemma_frame_leaf", "lemma_frame_cmp", "lemma_frame_row", "lemma_frame_rows", "lemma_frame_rows_all", "lemma_frame_rows_of", "lemma_frame_defined", "lemma_frame_elems", "lemma_agree_elem"]
 REWRITE_FNS = ["rewrite_search", "rewrite", "lemma_rw_refl", "lemma_rw_wf"]
-BATCH_FNS = ["batch", "seqtail", "shake_needles", "single_pattern", "classify_member", "entry_tail", "mapping_tail", "bool_value", "number_value", "list_flags", "unmatched_key", "lemma_ac_one", "lemma_kinds_push", "lemma_no_merged_push", "lemma_rs_any", "lemma_pairs_aligned", "lemma_pairs_any", "lemma_single_quant", "lemma_ac_search", "lemma_ac_member", "lemma_ac_any", "lemma_single_kind", "lemma_exact_empty", "lemma_any_ctx_push", "lemma_any_regex_push", "lemma_any_group_push", "lemma_any_ident_take", "lemma_group_ok_push"]
+BATCH_FNS = ["batch", "seqtail", "shake_needles", "shake_patterns", "lemma_any_pat_step", "lemma_rs_pats", "single_pattern", "classify_member", "entry_tail", "mapping_tail", "bool_value", "number_value", "list_flags", "unmatched_key", "lemma_ac_one", "lemma_kinds_push", "lemma_no_merged_push", "lemma_rs_any", "lemma_pairs_aligned", "lemma_pairs_any", "lemma_single_quant", "lemma_ac_search", "lemma_ac_member", "lemma_ac_any", "lemma_single_kind", "lemma_exact_empty", "lemma_any_ctx_push", "lemma_any_regex_push", "lemma_any_group_push", "lemma_any_ident_take", "lemma_group_ok_push"]
 
 PROPS = {
     "C15": {
@@ -64,7 +64,7 @@ PROPS = {
                                  "lemma_congruences_all", "lemma_same_refl", "lemma_same_trans", "lemma_group_equiv", "lemma_group_single", "lemma_merge", "lemma_be_congr", "lemma_three",
                                  "lemma_sems_concat", "lemma_sems_defined", "lemma_has_ident_elem", "lemma_and3_concat", "lemma_or3_concat", "lemma_single", "lemma_and3_3", "lemma_or3_3", "lemma_match_group_same"],
                   "matrix": MATRIX_FNS, "rewrite": REWRITE_FNS, "batch": BATCH_FNS},
-        "explanation": "coalesce is proved to preserve sem3 for every document (three-valued equality, so also under negation), to remove every identifier (so clearing the identifier table is sound) and never to hit its expect(); shake_0 (and/or flattening, group-of-one unwrapping) is proved to preserve sem3 for every identifier table and document, arm by arm, through flattening lemmas over and3/or3; matrix() (all 358 lines, both passes, every loop) is proved against a structural relation - every disjunct of an or-group becomes either a row whose cells are exactly its conjuncts, re-keyed to the column of their field, or stays as it is - and that relation is proved to imply that the rewritten or-group is TRUE for exactly the same documents (cell -> row -> rows -> matrix lemmas over the solver's own cache-fold semantics), with full three-valued equivalence wherever no or-group is rewritten; termination of matrix() and coalesce() is proved (decreases expression); rewrite() / rewrite_search() are proved panic-free and terminating and to return the same expression with some regex searches rebuilt (same field, cast flag, case flag and kind: rw_rel), which keeps well-formedness (lemma_rw_wf); of shake_1, the block that re-merges the plain searches of one (field, cast, case) key (slice shake_needles) is proved to add exactly one search that means 'some member matches' under the members' own case rule",
+        "explanation": "coalesce is proved to preserve sem3 for every document (three-valued equality, so also under negation), to remove every identifier (so clearing the identifier table is sound) and never to hit its expect(); shake_0 (and/or flattening, group-of-one unwrapping) is proved to preserve sem3 for every identifier table and document, arm by arm, through flattening lemmas over and3/or3; matrix() (all 358 lines, both passes, every loop) is proved against a structural relation - every disjunct of an or-group becomes either a row whose cells are exactly its conjuncts, re-keyed to the column of their field, or stays as it is - and that relation is proved to imply that the rewritten or-group is TRUE for exactly the same documents (cell -> row -> rows -> matrix lemmas over the solver's own cache-fold semantics), with full three-valued equivalence wherever no or-group is rewritten; termination of matrix() and coalesce() is proved (decreases expression); rewrite() / rewrite_search() are proved panic-free and terminating and to return the same expression with some regex searches rebuilt (same field, cast flag, case flag and kind: rw_rel), which keeps well-formedness (lemma_rw_wf); of shake_1, the block that re-merges the plain searches of one (field, cast, case) key (slice shake_needles) is proved to add exactly one search that means 'some member matches' under the members' own case rule, and the block that rebuilds the regex searches of one key (slice shake_patterns) to add searches that together accept exactly what one of the patterns, compiled with the key's case flag, accepts - as one regex, as a set, or as separate regexes when the merged set does not build",
         "assumptions": ["shake_0: termination not proved; the Nested-over-block arm is a hole; all()/of() operands are assumed to be a group or a single identifier / search / matrix / field (groups_ok); double negation removal is known finding C01-KF1",
                         "matrix(): only truth-equivalence holds for a rewritten or-group (False/Missing may swap): the contract claims it where no rewritten or-group sits under a negation (neg_safe) - the rest is known finding C01-KF2; all()/of() heads directly under a nested key are outside the claim",
                         "matrix(): shake_1 (called on the operands of all()/of()) is not under contract: sh_post is assumed; HashMap::into_iter / sort_by / map-collect / values / String == String are expression holes with the std contract stated in prelude/mxspecs.rs; the u32 field counter is assumed not to overflow",
